@@ -748,6 +748,15 @@ std::string op_al_solve(toks_t& toks, std::string& aug)
     out.flist(outers.front().bcineq);
     out.flist(rceq);
     out.flist(rcineq);
+    for (const auto& o : outers)
+    {
+        // the class invariant of solver_state_t on every state the inner solver returned
+        if (o.iter_ok != 0.0)
+        {
+            out.flist(o.cceq);
+            out.flist(o.ccineq);
+        }
+    }
 
     // for the property oracle only (not compared with the model)
     dvec h;
